@@ -1,6 +1,7 @@
 //! Monitors: one module per property. A check for property X runs only X's monitors.
 
 pub mod c01;
+pub mod c03;
 pub mod c04;
 pub mod c05;
 pub mod c06;
@@ -11,12 +12,14 @@ pub mod c10;
 pub mod c11;
 pub mod c12;
 pub mod c14;
+pub mod c15;
 pub mod c16;
 pub mod c17;
+pub mod c18;
 pub mod c20;
 pub mod util;
 
-use crate::gen::{profile_farm, profile_full, profile_pool, Profile};
+use crate::gen::{profile_audit, profile_epoch, profile_farm, profile_full, profile_pool, Profile};
 use crate::sim::Monitor;
 
 pub const ALL: &[&str] = &[
@@ -27,6 +30,7 @@ pub const ALL: &[&str] = &[
 pub fn monitors_for(prop: &str) -> Vec<Box<dyn Monitor>> {
     match prop {
         "C01" => vec![Box::new(c01::C01::default())],
+        "C03" => vec![Box::new(c03::C03)],
         "C04" => vec![Box::new(c04::C04)],
         "C05" => vec![Box::new(c05::C05)],
         "C06" => vec![Box::new(c06::C06::default())],
@@ -37,7 +41,9 @@ pub fn monitors_for(prop: &str) -> Vec<Box<dyn Monitor>> {
         "C11" => vec![Box::new(c11::C11)],
         "C12" => vec![Box::new(c12::C12)],
         "C14" => vec![Box::new(c14::C14::default())],
+        "C15" => vec![Box::new(c15::C15::default())],
         "C16" => vec![Box::new(c16::C16::default())],
+        "C18" => vec![Box::new(c18::C18::default())],
         "C17" => vec![Box::new(c17::C17::default())],
         "C20" => vec![Box::new(c20::C20::default())],
         _ => vec![],
@@ -48,6 +54,8 @@ pub fn profile_for(prop: &str) -> Profile {
     match prop {
         "C01" | "C02" | "C03" | "C04" | "C12" | "C13" | "C14" | "C16" | "C17" | "C19" => profile_pool(),
         "C05" | "C06" | "C07" | "C08" | "C09" | "C10" | "C11" => profile_farm(),
+        "C15" => profile_audit(),
+        "C18" => profile_epoch(),
         _ => profile_full(),
     }
 }
